@@ -99,6 +99,17 @@ class C05(Check):
         lexer = rng.choice(['basic', 'dynamic', 'dynamic_complete'])
         g = prio.gen_grammar(rng, colliding=(lexer != 'basic' or rng.random() < 0.4), deep=rng.random() < 0.5)
         inputs = prio.gen_inputs(g, rng, k=4)
+        if rng.random() < 0.4:
+            # an %ignore'd blank, sprinkled between, before and after the tokens (also doubled): the derivations are those of the text
+            # without the blanks
+            g['ignore'] = True
+            spaced = []
+            for s_ in inputs:
+                out_ = ''
+                for ch in s_:
+                    out_ += ' ' * rng.choice([0, 0, 1, 1, 2]) + ch
+                spaced.append(' ' * rng.choice([0, 0, 1]) + out_.lstrip(' ') + ' ' * rng.choice([0, 1, 1, 2]) if rng.random() < 0.8 else out_)
+            inputs = spaced
         mode = rng.choice(['normal', 'normal', 'invert', 'invert', None])
         return {'kind': 'opt', 'g': g, 'inputs': inputs, 'lexer': lexer, 'priority': mode, 'ordered_sets': rng.random() < 0.7}
 
@@ -231,7 +242,7 @@ class C05(Check):
             # ---- reference model: all derivations with priority sums
             try:
                 only = prio.basic_lexer_choice(c['g'], c['priority']) if c['lexer'] == 'basic' else None
-                D = prio.enumerate_derivations(c['g'], s, only_terminals=only)
+                D = prio.enumerate_derivations(c['g'], s.replace(' ', '') if c['g'].get('ignore') else s, only_terminals=only)
             except prio.Overflow:
                 out.count('enumeration-overflow')
                 continue
